@@ -27,13 +27,13 @@ def _size_rewrite(e: ast.expr) -> Lin | None:
 def _size_of(x: ast.expr) -> Lin | None:
     if isinstance(x, ast.Call) and isinstance(x.func, ast.Attribute):
         if x.func.attr == "slice" and len(x.args) == 2:
-            a, b = (linear(t, canon, _size_rewrite) for t in x.args)
+            a, b = (linear(t, _atom, _size_rewrite) for t in x.args)
             return _sub(b, a)
         if x.func.attr == "remove_between" and len(x.args) == 2:
             inner = _size_of(x.func.value)
             if inner is None:
                 return None
-            a, b = (linear(t, canon, _size_rewrite) for t in x.args)
+            a, b = (linear(t, _atom, _size_rewrite) for t in x.args)
             return _sub(inner, _sub(b, a))
     return None
 
@@ -45,19 +45,43 @@ def _sub(a: Lin, b: Lin) -> Lin:
     return {k: v for k, v in out.items() if v != 0}
 
 
+_OPS = {ast.Div: "/", ast.FloorDiv: "//", ast.Mod: "%", ast.Mult: "*", ast.Pow: "**", ast.BitAnd: "&", ast.BitOr: "|", ast.BitXor: "^", ast.LShift: "<<", ast.RShift: ">>", ast.Add: "+", ast.Sub: "-"}
+
+
+def _atom(e: ast.expr) -> str:
+    """Canonical text of a sub-term that the linear normaliser treats as opaque."""
+    if isinstance(e, ast.BinOp):
+        return f"({canon(e.left)} {_OPS.get(type(e.op), '?')} {canon(e.right)})"
+    if isinstance(e, ast.UnaryOp):
+        return f"({type(e.op).__name__} {canon(e.operand)})"
+    return canon(e)
+
+
 def canon(e: ast.expr) -> str:
     if isinstance(e, ast.Call):
-        args = ", ".join(canon(a) for a in e.args)
+        args = ", ".join([canon(a) for a in e.args] + [f"{k.arg}={canon(k.value)}" for k in e.keywords])
         return f"{canon(e.func)}({args})"
-    if isinstance(e, (ast.BinOp, ast.UnaryOp)) or (isinstance(e, ast.Constant) and isinstance(e.value, (int, float)) and not isinstance(e.value, bool)):
-        l = linear(e, canon, _size_rewrite)
-        if set(l) != {src(e)}:
-            return lin_str(l)
+    if isinstance(e, ast.BinOp) and isinstance(e.op, (ast.Add, ast.Sub, ast.Mult)) or (isinstance(e, ast.UnaryOp) and isinstance(e.op, (ast.USub, ast.UAdd))) or (isinstance(e, ast.Constant) and isinstance(e.value, (int, float)) and not isinstance(e.value, bool)):
+        return lin_str(linear(e, _atom, _size_rewrite))
+    if isinstance(e, (ast.BinOp, ast.UnaryOp)):
+        return _atom(e)
     if isinstance(e, ast.Attribute):
         r = _size_rewrite(e)
         if r is not None:
             return lin_str(r)
         return f"{canon(e.value)}.{e.attr}"
+    if isinstance(e, ast.Subscript):
+        return f"{canon(e.value)}[{canon(e.slice)}]" if not isinstance(e.slice, ast.Slice) else src(e)
+    if isinstance(e, ast.IfExp):
+        return f"({canon(e.body)} if {canon(e.test)} else {canon(e.orelse)})"
+    if isinstance(e, ast.Compare) and len(e.ops) == 1:
+        from ..norm import facts
+
+        return facts(e, True, canon)[0]
+    if isinstance(e, ast.BoolOp):
+        return "(" + (" and " if isinstance(e.op, ast.And) else " or ").join(canon(v) for v in e.values) + ")"
+    if isinstance(e, (ast.List, ast.Tuple)):
+        return "[" + ", ".join(canon(x) for x in e.elts) + "]"
     return src(e)
 
 
@@ -155,7 +179,7 @@ def _identity(report: Report, fn: Func, m: list[ast.expr], subst: dict[str, ast.
             return self.generic_visit(node)
 
     inv_map = [Sub().visit(clone(t)) for t in m]  # get_map formula evaluated on the inverted step's fields
-    lin = lambda e: linear(e, canon, _size_rewrite)  # noqa: E731
+    lin = lambda e: linear(e, _atom, _size_rewrite)  # noqa: E731
     k = len(m) // 3
     ok = True
     shift: Lin = {}
